@@ -4,9 +4,9 @@
     waiter dequeues from the shared stream and discards what is not its own. *)
 From Verif.Base Require Import Prelude AwaitTypes.
 From Verif.Gen Require Import ErrorsGen.
-From Verif.Model Require Import Concurrent.
+From Verif.Model Require Import Concurrent ConcurrentFifo.
 From Verif.Spec Require Import C01 C18.
-From Verif.Proofs Require Import Concurrent.
+From Verif.Proofs Require Import Concurrent ConcurrentFifo.
 Open Scope Z_scope.
 
 (** For EVERY number of callers, every delivery log (who dequeued what, in what
@@ -53,3 +53,52 @@ Example C18_nonvacuous :
   map snd (replay is_retryable_error [a; b] [Deliver 0 (MRes b 2); Deliver 1 (MRes a 1)])
     = [None; None].
 Proof. split; vm_compute; reflexivity. Qed.
+
+(** Where the recorded finding does NOT reach.  Under the stream's FIFO wake-up
+    discipline (Model/ConcurrentFifo.v; the correspondence run compares
+    [fifo_log] with the log recorded on the real stream), for EVERY number of
+    callers: when the answers come in the order in which the callers wait and
+    nothing else is on the connection, every answered caller completes with
+    ITS answer - so a lost response needs an answer out of order, a foreign
+    object in between, or a poll instant that re-orders the waiters. *)
+Theorem C18_in_request_order_nothing_lost : forall ids ans k m i,
+  Forall (addressed is_retryable_error ids) ans ->
+  map fst ans = firstn (length ans) (request_order ids) ->
+  In (k, m) ans -> nth_error ids k = Some i ->
+  outcome_of (replay is_retryable_error ids
+                (fifo_log is_retryable_error ids (request_order ids) (map snd ans))) k
+  = decide is_retryable_error i m.
+Proof. exact (request_order_nothing_lost is_retryable_error). Qed.
+Print Assumptions C18_in_request_order_nothing_lost.
+
+Theorem C18_in_queue_order_nothing_lost : forall ids ans queue k m i,
+  NoDup queue ->
+  Forall (addressed is_retryable_error ids) ans ->
+  map fst ans = firstn (length ans) queue ->
+  In (k, m) ans -> nth_error ids k = Some i ->
+  outcome_of (replay is_retryable_error ids
+                (fifo_log is_retryable_error ids queue (map snd ans))) k
+  = decide is_retryable_error i m.
+Proof. exact (fifo_in_order_nothing_lost is_retryable_error). Qed.
+Print Assumptions C18_in_queue_order_nothing_lost.
+
+Example C18_fifo_nonvacuous :
+  let a := IdStr [97] in let b := IdStr [98] in let c := IdStr [99] in
+  let ids := [a; b; c] in
+  (* the hypotheses are met by a three-caller burst of which two are answered, one with an error *)
+  (Forall (addressed is_retryable_error ids) [(0%nat, MRes a 1); (1%nat, MErr b (-32603))]
+   /\ map fst [(0%nat, MRes a 1); (1%nat, MErr b (-32603))] = firstn 2 (request_order ids)) /\
+  map snd (replay is_retryable_error ids (fifo_log is_retryable_error ids (request_order ids) [MRes a 1; MErr b (-32603)]))
+    = [Some (Return 1); Some (RaiseErr (is_retryable_error (-32603)) (-32603)); None] /\
+  (* the refuting schedule of C18_no_lost_response_refuted IS the FIFO schedule of answers b, a *)
+  fifo_log is_retryable_error [a; b] (request_order [a; b]) [MRes b 2; MRes a 1]
+    = [Deliver 0 (MRes b 2); Deliver 1 (MRes a 1)] /\
+  (* and one notification ahead of in-order answers rotates the queue: the hypothesis "nothing else" is needed *)
+  map snd (replay is_retryable_error [a; b]
+             (fifo_log is_retryable_error [a; b] (request_order [a; b]) [MNotif; MRes a 1; MRes b 2]))
+    = [None; None].
+Proof.
+  cbv zeta. repeat split; try (vm_compute; reflexivity).
+  repeat constructor; cbn; [exists (IdStr [97]), (Return 1) | exists (IdStr [98]), (RaiseErr (is_retryable_error (-32603)) (-32603))];
+    split; vm_compute; reflexivity.
+Qed.
